@@ -349,6 +349,37 @@ theorem nan_of_single_loading_measurement (s : Sol) (g : QMat) (i j : Nat) (hi :
     rfl
   exact ⟨hu, fun c hc => (nan_row s g (s.na + i) hi hu c hc).1⟩
 
+/-- **The NaN mask of a measurement variable is defined by its loadings on the unit-root STATES** (the first `nu` columns of
+`Za`, triangular basis) and by nothing else: not by `Ua`, not by which transition variables are themselves non-stationary.
+Two solutions with the same `Za`, `nu`, `na`, `tol` mask the same measurement variables. -/
+theorem measurement_mask_by_states (s : Sol) (i : Nat) :
+    isStable s (s.na + i) = true ↔ ∀ j, j < s.nu → absQ (s.Za.get i j) ≤ s.tol := by
+  unfold isStable
+  rw [if_neg (by omega), Nat.add_sub_cancel_left]
+  constructor
+  · intro h j hj
+    by_contra hlt
+    have : loadsOnUnitRoot s.Za s.nu s.tol i = true :=
+      (loadsOnUnitRoot_iff s.Za s.nu s.tol i).2 ⟨j, hj, by
+        exact Rat.not_le.1 hlt⟩
+    rw [this] at h; simp at h
+  · intro h
+    cases hl : loadsOnUnitRoot s.Za s.nu s.tol i with
+    | false => rfl
+    | true =>
+      obtain ⟨j, hj, hlt⟩ := (loadsOnUnitRoot_iff s.Za s.nu s.tol i).1 hl
+      exact absurd (h j hj) (Rat.not_le.2 hlt)
+
+/-- … hence a stationary combination of non-stationary variables is NOT masked: in the concrete system `ξ = (α₀, α₀ + α₁)`
+with one unit root `α₀`, both transition variables load on the unit root (masked), while the observable `ξ₁ − ξ₀ = α₁` —
+a combination that touches two non-stationary variables — has zero loading on it and is reported (not masked). -/
+example :
+    let s : Sol := ⟨2, 1, 1, QMat.ofRows [[1, 0], [0, 1/2]], QMat.ofRows [[1], [1]], QMat.ofRows [[0, 1]],
+      QMat.ofRows [[1, 0], [1, 1]], QMat.zero 1 0, QMat.identity 1, QMat.zero 0 0, 0⟩
+    isStable s 0 = false ∧ isStable s 1 = false ∧ isStable s 2 = true := by
+  decide +kernel
+
+
 /-- the zero-shift selection only picks cells: `select` never creates or removes a NaN -/
 theorem select_get (g : CMat) (sel : List Nat) (i j : Nat) (hi : i < sel.length) (hj : j < sel.length) :
     (select g sel).get i j = g.get (sel.getD i 0) (sel.getD j 0) := by
